@@ -77,7 +77,8 @@ int main(void)
    if (line.s[line.len - 1]) { respond("x"); continue; } /* impossible */
    for (i = 5;i < line.len - 1;++i)
      if ((unsigned char) (line.s[i] - '0') > 9)
-      { respond("x"); continue; }
+       break;
+   if (i < line.len - 1) { respond("x"); continue; }
    if (!scan_ulong(line.s + 5,&id)) { respond("x"); continue; }
    if (byte_equal(line.s,5,"foop/"))
     {
@@ -87,7 +88,7 @@ if (unlink(fnbuf) == -1) if (errno != error_noent) { respond("!"); continue; }
      U("mess/",1)
      respond("+");
     }
-   else if (byte_equal(line.s,4,"todo/"))
+   else if (byte_equal(line.s,5,"todo/"))
     {
      U("intd/",0)
      U("todo/",0)
